@@ -364,12 +364,12 @@ func (r *Run) v6Special() []byte {
 		ow = append(ow, tlvb(23, r.Bytes(16*r.Rng.Intn(3)))...)
 	}
 	if r.Rng.Intn(2) == 0 {
-		ia := append(append(append(r.Bytes(4), w32(1)...), w32(2)...), tlvb(5, append(append(r.Bytes(16), w32(3)...), w32(4)...))...)
+		ia := append(append(append(r.Bytes(4), w32(1)...), w32(2)...), tlvb(5, append(append(r.Addr16(), w32(3)...), w32(4)...))...)
 		ow = append(ow, tlvb(3, ia)...)
 	}
 	inner := append([]byte{byte(r.Pick(1, 2, 3, 7)), 1, 2, 3}, ow...)
 	if r.Rng.Intn(2) == 0 {
-		peer := r.Bytes(16)
+		peer := r.Addr16()
 		if r.Rng.Intn(2) == 0 {
 			copy(peer, []byte{0xfe, 0x80, 0, 0, 0, 0, 0, 0, 0x02, 0x11, 0x22, 0xff, 0xfe, 0x33, 0x44, 0x55})
 		}
@@ -380,7 +380,7 @@ func (r *Run) v6Special() []byte {
 		if r.Rng.Intn(2) == 0 {
 			relayOpts = append(relayOpts, tlvb(79, append([]byte{0, 1}, r.Bytes(r.Pick(0, 6))...))...)
 		}
-		return append(append(append([]byte{12, 0}, r.Bytes(16)...), peer...), relayOpts...)
+		return append(append(append([]byte{12, 0}, r.Addr16()...), peer...), relayOpts...)
 	}
 	return inner
 }
@@ -390,12 +390,12 @@ func (r *Run) netbootMsg(t byte) (dhcpv6.DHCPv6, []byte) {
 	if r.Rng.Intn(2) == 0 {
 		ow = append(ow, tlvb(59, []byte("tftp://h/f"))...)
 	}
-	ia := append(append(append(r.Bytes(4), w32(1)...), w32(2)...), tlvb(5, append(append(r.Bytes(16), w32(3)...), w32(4)...))...)
+	ia := append(append(append(r.Bytes(4), w32(1)...), w32(2)...), tlvb(5, append(append(r.Addr16(), w32(3)...), w32(4)...))...)
 	if r.Rng.Intn(3) != 0 {
 		ow = append(ow, tlvb(3, ia)...)
 	}
 	if r.Rng.Intn(3) != 0 {
-		ow = append(ow, tlvb(23, r.Bytes(16))...)
+		ow = append(ow, tlvb(23, r.Addr16())...)
 	}
 	w := append([]byte{t, 9, 9, 9}, ow...)
 	m, _ := dhcpv6.FromBytes(w)
